@@ -319,6 +319,8 @@ def run(ctx):
         rule_position(ctx, f, b)
     rule_inherit(ctx, f)
     rule_count(ctx, f)
+    import c18
+    c18.rule_vec_reader(ctx, f, "C07-G4")
     return ctx.finish(
         "Static analysis of MIR facts of types.rs / file.rs: budget rule on the page descent; must-advance on every path of the kid loop, "
         "dominance of the range / equality guards, must-fail after the loop; dominance structure of the inheritance walk and of the own-entry "
